@@ -400,6 +400,19 @@ func (e *env) run(st Step) (res Result) {
 		for i := 0; i < 64; i++ {
 			buf.WriteByte(byte(0x5A + i))
 		}
+	case "aliaslists":
+		// every later top-level slice field of the same type is made the very slice of the first one
+		v := reflect.ValueOf(e.msgs[st.Msg]).Elem()
+		for i := 0; i < v.NumField(); i++ {
+			if v.Field(i).Kind() != reflect.Slice || !v.Field(i).CanSet() {
+				continue
+			}
+			for j := i + 1; j < v.NumField(); j++ {
+				if v.Field(j).Type() == v.Field(i).Type() && v.Field(j).CanSet() {
+					v.Field(j).Set(v.Field(i))
+				}
+			}
+		}
 	case "dumpkept":
 		if v, ok := e.kept[st.Name]; ok {
 			res.Ret = dumpValue(v)
